@@ -471,7 +471,7 @@ func run(c *engine.Ctx) {
 	}
 
 	// 4. seeded
-	nSets := c.Pick(5000, 40000)
+	nSets := c.Pick(5000, 20000)
 	perUnit := 40
 	for un := 0; un*perUnit < nSets; un++ {
 		un := un
